@@ -79,7 +79,9 @@ func lenAtom(n *Node, ctx *Ctx) (Atom, bool) {
 		}
 		return Atom{K: 'n', N: ri(0), Nd: n}, true
 	case KDimension:
-		if n.T.Num == nil || unitClass(strings.ToLower(n.T.Val)) != "length" {
+		// an unknown unit is taken as a length unit the oracle has not heard of (kept verbatim);
+		// angles, times etc. are not lengths
+		if c := unitClass(strings.ToLower(n.T.Val)); n.T.Num == nil || c != "length" && c != "unknown" {
 			return Atom{}, false
 		}
 		return numAtom(n, true, ctx), true
